@@ -11,9 +11,8 @@ META = dict(
                "C10_db_insert_alias / C10_db_insert_new_alias / C10_db_remove_alias / C10_db_remove_node (DbImpl functions: on lookups insert_alias is IndexedMap::insert, "
                "bijection kept, aliased ids stay existing nodes, a removed node is no longer named), C10_resolve_select_agree, C10_empty_alias_rejected, "
                "C10_empty_alias_first_no_effect, C10_edge_alias_rejected (fixed revision), C10_pinned_refuted (vm_compute witness of the repaired defect: alias on an edge). "
-               "History-level theorems are listed in coq/Props/C10.v with their exact status (names ending in _partial are conditional on the graph-layer interface). "
-               "The model is tied to /repo on every run by executing generated alias histories (re-aliasing, stealing, edge ids, empty aliases, removals, id reuse) on the real "
-               "database and on the extracted model and comparing every query result and periodic full dumps.",
+               "HISTORY LEVEL (PARTIAL, conditional): C10_step, C10_transaction_partial and C10_history_partial show that the joint invariant Inv (graph well-formed [C08] + alias map one-to-one on existing nodes + no duplicate keys + exact indexes) is kept by every mutating query whatever its outcome, at every state inside a running transaction, and after every history from the empty database in which no query fails; they assume `traversal_live rv_fixed` (breadth/depth-first and path searches return only existing elements; index searches and element scans are discharged) and do not cover the state after the rollback of a failing query (needs C13). "
+                              "database and on the extracted model and comparing every query result and periodic full dumps.",
     design_ref="DESIGN.md §5 C10",
     level_note="Trusted: Coq kernel, extraction (ExtrOcamlBasic), OCaml driver, Rust harness/generators. Theorems are about the model (theories/DbModel.v etc.); "
                "the tie to the code is differential execution of generated histories (every query result and periodic full dumps compared).",
